@@ -9,6 +9,7 @@
 import Rsa.Lemmas.C13
 import Rsa.Lemmas.C13Mean
 import Rsa.Lemmas.C13Pool
+import Rsa.Lemmas.C13Step
 import Rsa.Lemmas.C03Whiten
 import Rsa.Lemmas.Tri
 import Mathlib.Tactic.IntervalCases
@@ -148,6 +149,30 @@ theorem parse_ok_iff (xs ys : List (List (Option α))) :
       (fun r hr => hall r (List.mem_append.mpr (Or.inl hr)))
       (fun r hr => hall r (List.mem_append.mpr (Or.inr hr)))⟩
 
+/-- **both source copies of the parser, with their `raise` tests generated from the current source
+    text, are the parser the theorems above speak about**: the shape test is `w1 ≠ w2`, the NaN test
+    is "not (every row of stack 1 has the first mask ∧ every row of stack 2 has the first mask *of
+    stack 1*)" (depends on the leaves `cmpShapeReject`, `cmpNanReject`, `utlShapeReject`, `utlNanReject`) -/
+theorem parseOf_eq_parseCoded (c : ParserCopy) (xs ys : List (List (Option α))) :
+    parseOf c xs ys = parseCoded xs ys := by
+  cases xs with
+  | nil => rfl
+  | cons x0 xs' =>
+    cases ys with
+    | nil => rfl
+    | cons y0 ys' =>
+      unfold parseOf parseCoded
+      cases c <;>
+      · simp only [shapeReject, nanReject, Rsa.Gen.C13.cmpShapeReject, Rsa.Gen.C13.cmpNanReject,
+          Rsa.Gen.C13.utlShapeReject, Rsa.Gen.C13.utlNanReject, b2n]
+        by_cases hlen : x0.length = y0.length
+        · cases h1 : allMaskEq (maskOf x0) (x0 :: xs') <;> cases h2 : allMaskEq (maskOf x0) (y0 :: ys') <;>
+            simp [hlen]
+        · simp [hlen]
+
+example : parseOf .utils [[some 1, none, some 3]] [[none, some 5, some 7]] =
+    (.error .nanpos : Except ParseErr (List (List Nat) × List (List Nat) × List Bool)) := by decide
+
 /-- regression witness for the repaired defect: the count-only parser accepted differing
     positions and paired entry 0 with entry 1, entry 2 with entry 2 -/
 theorem parseLegacy_misaligns_witness :
@@ -172,7 +197,7 @@ theorem measure_common_mask (f : List α → List α → γ) (xs ys : List (List
     (hxm : ∀ r ∈ xs, maskOf r = m) (hym : ∀ r ∈ ys, maskOf r = m) :
     compareNan f xs ys = .ok (compareAll f (xs.map delete) (ys.map delete)) := by
   unfold compareNan
-  rw [parse_common_mask xs ys m hx hy hxm hym]
+  rw [parseOf_eq_parseCoded, parse_common_mask xs ys m hx hy hxm hym]
 
 /-- entry (i, j) is the measure of RDM i of the first and RDM j of the second stack, both
     with the common missing entries deleted -/
@@ -193,7 +218,7 @@ theorem whitened_common_mask (f : List (List α) → List α → List α → γ)
     (hxm : ∀ r ∈ xs, maskOf r = m) (hym : ∀ r ∈ ys, maskOf r = m) :
     compareNanV f V xs ys = .ok (compareAll (f (subBlock m V)) (xs.map delete) (ys.map delete)) := by
   unfold compareNanV
-  rw [parse_common_mask xs ys m hx hy hxm hym]
+  rw [parseOf_eq_parseCoded, parse_common_mask xs ys m hx hy hxm hym]
 
 /-- fast path (`sigma_k=None`): the same reduced vectors, and the common mask itself, reach
     `_cov_weighting` -/
@@ -202,7 +227,7 @@ theorem fast_common_mask (f : List Bool → List α → List α → γ)
     (hxm : ∀ r ∈ xs, maskOf r = m) (hym : ∀ r ∈ ys, maskOf r = m) :
     compareNanM f xs ys = .ok (compareAll (f m) (xs.map delete) (ys.map delete)) := by
   unfold compareNanM
-  rw [parse_common_mask xs ys m hx hy hxm hym]
+  rw [parseOf_eq_parseCoded, parse_common_mask xs ys m hx hy hxm hym]
 
 /-- the reduced `V` is the covariance (C03 `getV_entry`) of exactly the kept pairs -/
 theorem subBlock_getV_entry {K : Type} [Field K] [LinearOrder K] [IsStrictOrderedRing K]
@@ -231,9 +256,9 @@ theorem compare_rejects_differing (f : List α → List α → γ)
     compareNanM h' (x0 :: xs') (y0 :: ys') = .error .nanpos := by
   have := parse_rejects_differing x0 y0 xs' ys' hlen h
   refine ⟨?_, ?_, ?_⟩
-  · unfold compareNan; rw [this]
-  · unfold compareNanV; rw [this]
-  · unfold compareNanM; rw [this]
+  · unfold compareNan; rw [parseOf_eq_parseCoded, this]
+  · unfold compareNanV; rw [parseOf_eq_parseCoded, this]
+  · unfold compareNanM; rw [parseOf_eq_parseCoded, this]
 
 /-- nothing missing: `compare` is C03's `compareAll` on the vectors themselves -/
 theorem compare_full_stacks (f : List α → List α → γ) (xs ys : List (List α)) (w : Nat)
@@ -395,6 +420,59 @@ example : nanMean [[some 1, some 2, none], [some 3, none, none]]
     (perRdmWeights [[some 1, some 2, none], [some 3, none, none]] [1, 3]) =
       ([some (5 / 2), some 2, none] : List (Option ℚ)) := by decide +kernel
 
+/-- weighted squared error `Σ_{i has the entry} w_i (v_i − e)²` of a candidate value `e` for one entry -/
+def wsqErr (col : List (Option K × Option K)) (e : K) : K := wsq (present col) e
+
+/-- **Pythagoras for `_mean`**: for any candidate `e`, the weighted squared error splits into the error
+    of the mean plus `(Σ_present w)(mean − e)²` -/
+theorem nanMeanEntry_sq_error_decomposition (col : List (Option K × Option K)) (a e : K)
+    (h : nanMeanEntry col = some a) (hpos : ∀ v w, (some v, some w) ∈ col → 0 < w) :
+    wsqErr col e = wsqErr col a + ((present col).map (·.2)).sum * (a - e) ^ 2 := by
+  rw [coded_eq_spec, spec_unfold] at h
+  by_cases hne : present col = []
+  · simp [hne] at h
+  · simp only [hne, if_false, Option.some.injEq] at h
+    have hD := sum_weights_pos (present col) hne (fun p hp => hpos p.1 p.2 (mem_present hp))
+    rw [← h]
+    exact wsq_decomp (present col) e hD.ne'
+
+/-- **the weighted NaN-aware mean minimises the weighted squared error** over the RDMs that have the
+    entry (positive weights): no other value — in particular not the previous estimate of the
+    rescaling iteration — has a smaller error -/
+theorem nanMeanEntry_minimises_weighted_sq_error (col : List (Option K × Option K)) (a e : K)
+    (h : nanMeanEntry col = some a) (hpos : ∀ v w, (some v, some w) ∈ col → 0 < w) :
+    wsqErr col a ≤ wsqErr col e := by
+  rw [nanMeanEntry_sq_error_decomposition col a e h hpos]
+  have hne : present col ≠ [] := by
+    intro hh
+    rw [coded_eq_spec, spec_unfold] at h
+    simp [hh] at h
+  have hD := sum_weights_pos (present col) hne (fun p hp => hpos p.1 p.2 (mem_present hp))
+  have : 0 ≤ ((present col).map (·.2)).sum * (a - e) ^ 2 := mul_nonneg hD.le (sq_nonneg _)
+  linarith
+
+example : nanMeanEntry [(some (1 : ℚ), some 1), (some 4, some 2), (none, some 9)] = some 3 ∧
+    wsqErr [(some (1 : ℚ), some 1), (some 4, some 2), (none, some 9)] 3 = 6 ∧
+    wsqErr [(some (1 : ℚ), some 1), (some 4, some 2), (none, some 9)] 2 = 9 := by
+  refine ⟨by decide +kernel, ?_, ?_⟩ <;> simp [wsqErr, wsq, present] <;> norm_num
+
+/-- an entry of `_mean(vectors, weights)` that exists is `nanMeanEntry` of its column -/
+theorem nanMean_getElem?_some (vs ws : List (List (Option K))) (k : Nat) (o : Option K)
+    (h : (nanMean vs ws)[k]? = some o) :
+    o = nanMeanEntry (colAt k (List.zipWith List.zip vs ws)) := by
+  cases vs with
+  | nil => simp [nanMean] at h
+  | cons v0 vs' =>
+    simp only [nanMean, List.getElem?_map] at h
+    cases hr : (List.range v0.length)[k]? with
+    | none => simp [hr] at h
+    | some j =>
+      have hj : j = k := by
+        obtain ⟨hlt, hget⟩ := List.getElem?_eq_some_iff.mp hr
+        simpa using hget.symm
+      subst hj
+      simpa [hr] using h.symm
+
 end mean
 
 /-! ## 5. rescaling partial RDMs: one positive constant per RDM, NaN pattern kept, common
@@ -551,6 +629,224 @@ theorem rescale_keeps_nan_pattern (m : RescaleMethod) (thr : ℝ) (fuel : ℕ)
   apply List.map_congr_left
   intro row _
   exact alignRow_mask e row
+
+
+/-- the evidence weight *as generated from the source*: `max(d², 0.2²)` -/
+theorem evidenceWeight_eq (d : ℝ) : Rsa.Gen.C13.evidenceWeight d = max (d ^ 2) (1 / 25) := by
+  unfold Rsa.Gen.C13.evidenceWeight
+  congr 1
+  · ring
+  · norm_num
+
+/-- the set-size weight as generated from the source: `1 / #present` -/
+theorem setsizeWeight_eq (c : ℝ) : Rsa.Gen.C13.setsizeWeight c = 1 / c := by
+  simp [Rsa.Gen.C13.setsizeWeight]
+
+/-- **the weights of all three methods are positive wherever they are defined** (the hypothesis of the
+    weighted-mean theorems; depends on the generated leaves `evidenceWeight`, `setsizeWeight`) -/
+theorem rescaleWeights_pos (m : RescaleMethod) (dissim : List (List (Option ℝ))) :
+    ∀ wrow ∈ rescaleWeights m dissim, ∀ w, some w ∈ wrow → 0 < w := by
+  intro wrow hwrow w hw
+  unfold rescaleWeights at hwrow
+  obtain ⟨row, hrow, rfl⟩ := List.mem_map.mp hwrow
+  obtain ⟨o, ho, hmap⟩ := List.mem_map.mp hw
+  cases o with
+  | none => simp at hmap
+  | some d =>
+    simp only [Option.map_some, Option.some.injEq] at hmap
+    subst hmap
+    cases m with
+    | evidence =>
+      simp only [evidenceWeight_eq]
+      exact lt_of_lt_of_le (by norm_num) (le_max_right _ _)
+    | setsize =>
+      simp only [setsizeWeight_eq]
+      have : 0 < count row := count_pos_of_mem row d ho
+      positivity
+    | simple => exact one_pos
+
+/-- **norm matching**: the aligned RDM has exactly the sum of squares the estimate has on that RDM's
+    own entries -/
+theorem alignRow_norm (est row : List (Option ℝ)) (h1 : 0 < ssO row) :
+    ssO (alignRow est row) = ssO (maskBy row est) := by
+  have hmul : alignRow est row = row.map (fun o => o.map (fun a =>
+      a * (Real.sqrt (ssO (maskBy row est)) / Real.sqrt (ssO row)))) := by
+    unfold alignRow scaleO
+    rw [List.map_map]
+    apply List.map_congr_left
+    intro o _
+    cases o with
+    | none => rfl
+    | some a =>
+      simp only [Function.comp, Option.map_some, hasSqrt_real]
+      congr 1
+      have : Real.sqrt (ssO row) ≠ 0 := (Real.sqrt_pos.mpr h1).ne'
+      field_simp
+  rw [hmul, ssO_map_mul, div_pow, Real.sq_sqrt (ssO_nonneg _), Real.sq_sqrt h1.le]
+  field_simp
+
+theorem mem_colAt_zip_weight {β : Type} (A W : List (List β)) (k : Nat) (p : β × β)
+    (h : p ∈ colAt k (List.zipWith List.zip A W)) : ∃ wrow ∈ W, p.2 ∈ wrow := by
+  induction A generalizing W with
+  | nil => simp [colAt] at h
+  | cons a A ih =>
+    cases W with
+    | nil => simp [colAt] at h
+    | cons w W =>
+      simp only [colAt, List.zipWith_cons_cons, List.filterMap_cons] at h
+      cases hz : (List.zip a w)[k]? with
+      | none =>
+        rw [hz] at h
+        obtain ⟨wrow, hw, hp⟩ := ih W (by simpa [colAt] using h)
+        exact ⟨wrow, by simp [hw], hp⟩
+      | some q =>
+        rw [hz] at h
+        rcases List.mem_cons.mp h with rfl | h'
+        · have hmem : p ∈ List.zip a w := List.mem_of_getElem? hz
+          exact ⟨w, by simp, (List.of_mem_zip hmem).2⟩
+        · obtain ⟨wrow, hw, hp⟩ := ih W (by simpa [colAt] using h')
+          exact ⟨wrow, by simp [hw], hp⟩
+
+/-- **the consensus half of every pass never increases the weighted squared error**: with the weights
+    of any of the three methods, entry `k` of `_mean(aligned, weights)` minimises
+    `Σ_{i has k} w_ik (aligned_ik − e)²` over all candidate values `e` (so replacing the previous
+    estimate by it cannot increase the error).  The normalisation `_scale` and the norm-matching
+    alignment (`alignRow_norm`) are *not* descent steps of this error — which is why the docstring
+    warns that the iteration may not converge (see `rescale_converges_full`). -/
+theorem rescale_pass_estimate_minimises (m : RescaleMethod) (dissim : List (List (Option ℝ)))
+    (est : List (Option ℝ)) (k : ℕ) (a e : ℝ)
+    (h : (nanMean (dissim.map (alignRow est)) (rescaleWeights m dissim))[k]? = some (some a)) :
+    wsqErr (colAt k (List.zipWith List.zip (dissim.map (alignRow est)) (rescaleWeights m dissim))) a ≤
+      wsqErr (colAt k (List.zipWith List.zip (dissim.map (alignRow est)) (rescaleWeights m dissim))) e := by
+  have h' := nanMean_getElem?_some _ _ k _ h
+  apply nanMeanEntry_minimises_weighted_sq_error _ a e h'.symm
+  intro v w hmem
+  obtain ⟨wrow, hw, hp⟩ := mem_colAt_zip_weight _ _ k _ hmem
+  exact rescaleWeights_pos m dissim wrow hw w hp
+
+example : (nanMean ([[some (3 : ℝ), some 4]].map (alignRow [some 1, some 1]))
+    (rescaleWeights .simple [[some (3 : ℝ), some 4]]))[0]? =
+      some (nanMeanEntry (colAt 0 (List.zipWith List.zip ([[some (3 : ℝ), some 4]].map (alignRow [some 1, some 1]))
+        (rescaleWeights .simple [[some (3 : ℝ), some 4]])))) := by
+  simp [nanMean, alignRow, scaleO]
+
+
+theorem mem_colAt_zip_value {β : Type} (A W : List (List β)) (k : Nat) (p : β × β)
+    (h : p ∈ colAt k (List.zipWith List.zip A W)) : ∃ arow ∈ A, arow[k]? = some p.1 := by
+  induction A generalizing W with
+  | nil => simp [colAt] at h
+  | cons a A ih =>
+    cases W with
+    | nil => simp [colAt] at h
+    | cons w W =>
+      simp only [colAt, List.zipWith_cons_cons, List.filterMap_cons] at h
+      cases hz : (List.zip a w)[k]? with
+      | none =>
+        rw [hz] at h
+        obtain ⟨arow, ha, hp⟩ := ih W (by simpa [colAt] using h)
+        exact ⟨arow, by simp [ha], hp⟩
+      | some q =>
+        rw [hz] at h
+        rcases List.mem_cons.mp h with rfl | h'
+        · exact ⟨a, by simp, (List.getElem?_zip_eq_some.mp hz).1⟩
+        · obtain ⟨arow, ha, hp⟩ := ih W (by simpa [colAt] using h')
+          exact ⟨arow, by simp [ha], hp⟩
+
+/-- **the consensus half of a pass keeps a common scale**: if every aligned RDM is `b · t` on its own
+    entries (`t = T`), then every defined entry of `_mean(aligned, weights)` is `b · t_k` again, for
+    any positive weights (all three methods: `rescaleWeights_pos`) -/
+theorem rescale_pass_consensus_common_scale (T : List ℝ) (b : ℝ) (aligned w : List (List (Option ℝ)))
+    (hal : ∀ row ∈ aligned, ∀ (k : ℕ) (v : ℝ), row[k]? = some (some v) → ∃ t, T[k]? = some t ∧ v = b * t)
+    (hw : ∀ wrow ∈ w, ∀ x, some x ∈ wrow → 0 < x)
+    (k : ℕ) (a : ℝ) (h : (nanMean aligned w)[k]? = some (some a)) :
+    ∃ t, T[k]? = some t ∧ a = b * t := by
+  have h' := (nanMean_getElem?_some _ _ k _ h).symm
+  have hne : ¬ ∀ vw ∈ colAt k (List.zipWith List.zip aligned w), vw.1 = none ∨ vw.2 = none := by
+    intro hall
+    rw [(nanMeanEntry_none_iff _).mpr hall] at h'
+    cases h'
+  push Not at hne
+  obtain ⟨⟨v0, x0⟩, hmem0, hv0, hx0⟩ := hne
+  obtain ⟨v0', rfl⟩ := Option.ne_none_iff_exists'.mp hv0
+  obtain ⟨arow, harow, hk⟩ := mem_colAt_zip_value _ _ k _ hmem0
+  obtain ⟨t, ht, -⟩ := hal arow harow k v0' hk
+  refine ⟨t, ht, ?_⟩
+  apply nanMeanEntry_const _ a (b * t) h'
+  · intro v x hmem
+    obtain ⟨wrow, hwrow, hp⟩ := mem_colAt_zip_weight _ _ k _ hmem
+    exact hw wrow hwrow x hp
+  · intro v x hmem
+    obtain ⟨arow', harow', hk'⟩ := mem_colAt_zip_value _ _ k _ hmem
+    obtain ⟨t', ht', hv⟩ := hal arow' harow' k v hk'
+    rw [ht] at ht'
+    cases ht'
+    exact hv
+
+theorem rowOf_getElem? (L : List (Bool × Bool × ℝ)) (c : ℝ) (k : ℕ) (v : ℝ)
+    (h : (rowOf L c)[k]? = some (some v)) : ∃ p, L[k]? = some p ∧ p.1 = true ∧ v = c * p.2.2 := by
+  unfold rowOf at h
+  rw [List.getElem?_map] at h
+  cases hL : L[k]? with
+  | none => simp [hL] at h
+  | some p =>
+    refine ⟨p, rfl, ?_⟩
+    rw [hL] at h
+    simp only [Option.map_some, Option.some.injEq] at h
+    by_cases hp : p.1 = true
+    · simp [hp] at h
+      exact ⟨hp, h.symm⟩
+    · simp [hp] at h
+
+/-- **a whole pass maps a common-scale estimate to a common-scale estimate and returns common-scale
+    RDMs**: RDM `i` is `a_i · t` on its mask (`a_i > 0`), the current estimate is `b · t` (`b > 0`)
+    wherever some RDM has a value.  Then (1) the aligned RDMs of the pass are `b · t` on their masks —
+    one common factor — and (2) every defined entry of the new consensus `_mean(aligned, weights)` is
+    `b · t_k` again (before `_scale`, which multiplies by one positive constant), for positive weights.
+    So the set of common-scale estimates is invariant under the iteration. -/
+theorem rescale_pass_keeps_common_scale (Ls : List (List (Bool × Bool × ℝ) × ℝ)) (T : List ℝ)
+    (est : List (Option ℝ)) (b : ℝ) (hb : 0 < b) (w : List (List (Option ℝ)))
+    (ha : ∀ La ∈ Ls, 0 < La.2)
+    (hsub : ∀ La ∈ Ls, ∀ p ∈ La.1, p.1 = true → p.2.1 = true)
+    (hS : ∀ La ∈ Ls, 0 < ssO (rowOf La.1 1))
+    (hest : ∀ La ∈ Ls, estOf La.1 b = est)
+    (hT : ∀ La ∈ Ls, ∀ (k : ℕ) (p : Bool × Bool × ℝ), La.1[k]? = some p → T[k]? = some p.2.2)
+    (hw : ∀ wrow ∈ w, ∀ x, some x ∈ wrow → 0 < x) :
+    (rescaleStep w (Ls.map (fun La => rowOf La.1 La.2)) est).1 = Ls.map (fun La => rowOf La.1 b) ∧
+    ∀ (k : ℕ) (a : ℝ), (nanMean (rescaleStep w (Ls.map (fun La => rowOf La.1 La.2)) est).1 w)[k]? = some (some a) →
+      ∃ t, T[k]? = some t ∧ a = b * t := by
+  have h1 : (rescaleStep w (Ls.map (fun La => rowOf La.1 La.2)) est).1 = Ls.map (fun La => rowOf La.1 b) := by
+    show (Ls.map (fun La => rowOf La.1 La.2)).map (alignRow est) = _
+    rw [List.map_map]
+    apply List.map_congr_left
+    intro La hLa
+    simp only [Function.comp]
+    rw [← hest La hLa]
+    exact rescale_fixedpoint_common_scale La.1 La.2 b (ha La hLa) hb (hsub La hLa) (hS La hLa)
+  refine ⟨h1, ?_⟩
+  intro k a h
+  rw [h1] at h
+  apply rescale_pass_consensus_common_scale T b _ w _ hw k a h
+  intro row hrow k' v hk'
+  obtain ⟨La, hLa, rfl⟩ := List.mem_map.mp hrow
+  obtain ⟨p, hp, -, hv⟩ := rowOf_getElem? La.1 b k' v hk'
+  exact ⟨p.2.2, hT La hLa k' p hp, hv⟩
+
+example : (∀ La ∈ ([([(true, true, 3), (false, true, 1)], 2), ([(true, true, 3), (true, true, 1)], 5)] :
+      List (List (Bool × Bool × ℝ) × ℝ)), estOf La.1 (1 / 2) = [some (3 / 2), some (1 / 2)]) ∧
+    (∀ La ∈ ([([(true, true, 3), (false, true, 1)], 2), ([(true, true, 3), (true, true, 1)], 5)] :
+      List (List (Bool × Bool × ℝ) × ℝ)), ∀ (k : ℕ) (p : Bool × Bool × ℝ), La.1[k]? = some p →
+        ([3, 1] : List ℝ)[k]? = some p.2.2) := by
+  constructor
+  · intro La hLa
+    simp at hLa
+    rcases hLa with rfl | rfl <;> simp [estOf] <;> norm_num
+  · intro La hLa k p hp
+    simp at hLa
+    rcases hLa with rfl | rfl <;>
+    · match k with
+      | 0 => simp at hp; subst hp; simp
+      | 1 => simp at hp; subst hp; simp
+      | (k + 2) => simp at hp
 
 /-- NOT proved: the iteration started from `_scale(_mean(dissim))` reaches the fixed point
     (the docstring itself says it may not converge); checked numerically by the engine at
@@ -756,7 +1052,7 @@ theorem regress_common_mask (fm : FitMethod) (V : List (List ℝ)) (ridge : ℝ)
               ridge (A.map delete) (delete y)
            if normalize then normalizeTheta t else t) := by
   unfold fitRegress
-  rw [parse_common_mask A [y] m hA (by simp) hAm (by intro r hr; simp at hr; rw [hr, hy])]
+  rw [parseOf_eq_parseCoded, parse_common_mask A [y] m hA (by simp) hAm (by intro r hr; simp at hr; rw [hr, hy])]
   simp
 
 /-- the pooled RDM of reduced rows has the length of the first reduced row -/
@@ -808,11 +1104,63 @@ theorem regress_rejects_differing (fm : FitMethod) (V : List (List ℝ)) (ridge 
     (h : ∃ r ∈ (a0 :: A') ++ [y], maskOf r ≠ maskOf a0) :
     fitRegress fm V ridge normalize (a0 :: A') y = .error .nanpos := by
   unfold fitRegress
-  rw [parse_rejects_differing a0 y A' [] hlen h]
+  rw [parseOf_eq_parseCoded, parse_rejects_differing a0 y A' [] hlen h]
 
 example : ∃ r ∈ ([some (1 : ℝ), none, some 2] :: []) ++ [[none, some (1 : ℝ), some 2]],
     maskOf r ≠ maskOf [some (1 : ℝ), none, some 2] :=
   ⟨[none, some 1, some 2], by simp, by simp [maskOf]⟩
+
+/-! ### the non-negative fit: same parser, same reduction, C08's active-set loop -/
+
+/-- both fits work on the *same* normal equations `(X, b) = normalEq …` of the reduced vectors:
+    `fit_regress` solves them, `fit_regress_nn` hands them to the active-set loop -/
+theorem regress_ls_nn_same_equations (eps : ℝ) (fm : FitMethod) (V : Option (List (List ℝ))) (ridge : ℝ)
+    (A : List (List ℝ)) (y : List ℝ) :
+    regressRows fm V ridge A y = solve (normalEq fm V ridge A y).1 (normalEq fm V ridge A y).2 ∧
+    regressRowsNN eps fm V ridge A y =
+      ((Rsa.Fit.nnls eps (normalEq fm V ridge A y).1 (normalEq fm V ridge A y).2).1,
+       (Rsa.Fit.nnls eps (normalEq fm V ridge A y).1 (normalEq fm V ridge A y).2).2.2) := ⟨rfl, rfl⟩
+
+/-- **`fit_regress_nn` on a common mask = the non-negative least-squares loop on the reduced vectors**
+    (whitened methods: matching rows and columns of `V` deleted) -/
+theorem regressNN_common_mask (eps : ℝ) (fm : FitMethod) (V : List (List ℝ)) (ridge : ℝ) (normalize : Bool)
+    (A : List (List (Option ℝ))) (y : List (Option ℝ)) (m : List Bool) (hA : A ≠ [])
+    (hAm : ∀ r ∈ A, maskOf r = m) (hy : maskOf y = m) :
+    fitRegressNN eps fm V ridge normalize A y =
+      .ok (let t := regressRowsNN eps fm
+              (if fm = .cosineCov ∨ fm = .corrCov then some (subBlock m V) else none)
+              ridge (A.map delete) (delete y)
+           (if normalize then normalizeTheta t.1 else t.1, t.2)) := by
+  unfold fitRegressNN
+  rw [parseOf_eq_parseCoded, parse_common_mask A [y] m hA (by simp) hAm (by intro r hr; simp at hr; rw [hr, hy])]
+  simp
+
+/-- the whole `fit_regress_nn` pipeline on a common mask (pooling with the same `sigma_k`) -/
+theorem fitNN_pipeline_common_mask (eps : ℝ) (fm : FitMethod) (pm : PoolMethod) (V : List (List ℝ)) (ridge : ℝ)
+    (normalize : Bool) (A data : List (List (Option ℝ))) (m : List Bool) (hA : A ≠ []) (hD : data ≠ [])
+    (hAm : ∀ r ∈ A, maskOf r = m) (hDm : ∀ r ∈ data, maskOf r = m) :
+    fitRegressNN eps fm V ridge normalize A (poolRdm .pooling pm V data) =
+      .ok (let t := regressRowsNN eps fm
+              (if fm = .cosineCov ∨ fm = .corrCov then some (subBlock m V) else none) ridge
+              (A.map delete)
+              (poolRows (effMethod .pooling pm) (subBlock m V) (poolShift .pooling pm) (data.map delete))
+           (if normalize then normalizeTheta t.1 else t.1, t.2)) := by
+  have hpool := poolRdm_common_mask .pooling pm V m data hD hDm
+  obtain ⟨d1, drest, rfl⟩ := List.exists_cons_of_ne_nil hD
+  have hlen : (poolRows (effMethod .pooling pm) (subBlock m V) (poolShift .pooling pm)
+      ((d1 :: drest).map delete)).length = m.count true := by
+    rw [List.map_cons, poolRows_length, delete_length, hDm d1 (by simp)]
+  rw [regressNN_common_mask eps fm V ridge normalize A _ m hA hAm (by rw [hpool]; exact maskOf_scatter' m _ hlen)]
+  rw [hpool, delete_scatter' m _ hlen]
+
+/-- **model RDMs and pooled data lacking different entries ⇒ the non-negative fit raises too** -/
+theorem regressNN_rejects_differing (eps : ℝ) (fm : FitMethod) (V : List (List ℝ)) (ridge : ℝ) (normalize : Bool)
+    (a0 : List (Option ℝ)) (A' : List (List (Option ℝ))) (y : List (Option ℝ))
+    (hlen : a0.length = y.length)
+    (h : ∃ r ∈ (a0 :: A') ++ [y], maskOf r ≠ maskOf a0) :
+    fitRegressNN eps fm V ridge normalize (a0 :: A') y = .error .nanpos := by
+  unfold fitRegressNN
+  rw [parseOf_eq_parseCoded, parse_rejects_differing a0 y A' [] hlen h]
 
 end regress
 
